@@ -28,6 +28,7 @@ LAYOUT_POST = {
 _XY = ["Node.x", "Node.x$set", "Node.y", "Node.y$set", "Node.dx", "Node.dx$set", "Node.dy", "Node.dy$set"]
 
 CONTRACTS = {}
+_LOOP = {"left": 0, "right": 1, "up": 2, "down": 3}
 for _d in DIRECTIONS:
     _all = " and ".join(e for _, e in LAYOUT_POST[_d])
     CONTRACTS["renderer.Renderer.layout@%s" % _d] = {
@@ -35,9 +36,9 @@ for _d in DIRECTIONS:
         "params": {"self": renderer_obj(_d), "nodes": "slist:ref:Node"},
         "requires": ["forall(lambda j: implies(0 <= j < len(nodes), nodes[j] is not None))"],
         "modifies": _XY,
-        # the same loop is written once per direction; only the taken branch executes, its loop is loop 0
-        "loops": {0: {"modifies": _XY, "locals": {"pos": "real", "node": "ref:Node"},
-                      "inv": [("prefix_laid_out", "forall(lambda j: implies(0 <= j < _k0, %s))" % _all)]}},
+        # the same loop is written once per direction, in the source order left, right, up, down (static loop ordinals)
+        "loops": {_LOOP[_d]: {"modifies": _XY, "locals": {"pos": "real", "node": "ref:Node"},
+                              "inv": [("prefix_laid_out", "forall(lambda j: implies(0 <= j < _k%d, %s))" % (_LOOP[_d], _all))]}},
         "ensures": [("every_node_laid_out." + n, "forall(lambda j: implies(0 <= j < len(nodes), %s))" % e)
                     for n, e in LAYOUT_POST[_d]] + [("returns_nodes", "result is nodes")],
     }
